@@ -24,11 +24,16 @@ impl Flounder {
     pub fn uci_loop(&mut self) {
         loop {
             let mut command = String::new();
-            if std::io::stdin().read_line(&mut command).is_ok() {
-                command = command.trim().to_string();
-                if !command.is_empty() {
-                    self.handle_command(&command);
+            match std::io::stdin().read_line(&mut command) {
+                // End of input: stop reading so the process exits normally
+                Ok(0) => break,
+                Ok(_) => {
+                    command = command.trim().to_string();
+                    if !command.is_empty() {
+                        self.handle_command(&command);
+                    }
                 }
+                Err(_) => {}
             }
         }
     }
